@@ -182,6 +182,7 @@ pub fn profile(prop: Prop, thorough: bool) -> Profile {
         },
         Prop::C13 => base.clone(),
         Prop::C14 | Prop::C15 => Profile {
+            legacy: 300,
             kinds: [20, 30, 26, 1, 2, 1, 2, 3, 10, 6, 2],
             fault: 30,
             fees: 800,
@@ -364,6 +365,17 @@ pub fn build_world(w: &[u32; WORLD_WORDS], p: &Profile) -> WorldSpec {
     if gate(w[15], p.attrs) {
         bid_attrs.push("bid.kyc".to_string());
     }
+    // a required list may name an attribute twice
+    if gate(w[14].rotate_left(11), 100) {
+        if let Some(d) = ask_attrs.first().cloned() {
+            ask_attrs.push(d);
+        }
+    }
+    if gate(w[15].rotate_left(11), 100) {
+        if let Some(d) = bid_attrs.first().cloned() {
+            bid_attrs.push(d);
+        }
+    }
     // holder table: each account holds each attribute with probability 3/4
     let mut bits = (w[16] as u64) << 16 | (w[17] as u64 & 0xffff);
     for a in POOL.iter() {
@@ -377,6 +389,13 @@ pub fn build_world(w: &[u32; WORLD_WORDS], p: &Profile) -> WorldSpec {
                 bits = 0x9e3779b97f4a7c15 ^ (w[17] as u64);
             }
         }
+        // an account may carry the same attribute name more than once (several values)
+        if bits % 5 == 0 {
+            if let Some(d) = held.first().cloned() {
+                held.push(d);
+            }
+        }
+        bits /= 5;
         tables.attrs.insert(a.to_string(), held);
     }
     msg.insert("ask_required_attributes".into(), json!(ask_attrs));
@@ -1170,17 +1189,20 @@ impl<'a> Interp<'a> {
             ch.bid_fee_account = Some(a);
         }
         if mask & 16 != 0 {
-            ch.ask_attrs = Some(match pick(w[10], 3) {
+            ch.ask_attrs = Some(match pick(w[10], 5) {
                 0 => cfg.ask_attrs.clone(),
                 1 => vec![],
-                _ => vec!["ask.kyc".to_string()],
+                2 => vec!["ask.kyc".to_string()],
+                3 => vec!["ask.kyc".to_string(), "ask.kyc".to_string()],
+                _ => vec!["ask.accredited".to_string(), "ask.kyc".to_string()],
             });
         }
         if mask & 32 != 0 {
-            ch.bid_attrs = Some(match pick(w[11], 3) {
+            ch.bid_attrs = Some(match pick(w[11], 4) {
                 0 => cfg.bid_attrs.clone(),
                 1 => vec![],
-                _ => vec!["bid.kyc".to_string()],
+                2 => vec!["bid.kyc".to_string()],
+                _ => vec!["bid.kyc".to_string(), "bid.kyc".to_string()],
             });
         }
         let mut sender = cfg.executors[pick(w[7], cfg.executors.len())].clone();
